@@ -292,7 +292,52 @@ func (e *Engine) resolveHeader(ct *Contract) error {
 	ct.Key = key
 	fn := e.fns[key]
 	if fn == nil {
-		return fmt.Errorf("contract for unknown function %s", key)
+		// renamed function: exactly one function of the package without a contract of its own has the same
+		// receiver, parameter and result types (sound: every obligation still has to be proved on its body)
+		var want []string
+		if fd.Recv != nil && len(fd.Recv.List) == 1 {
+			want = append(want, "recv "+types.ExprString(fd.Recv.List[0].Type))
+		}
+		for _, p := range fd.Type.Params.List {
+			for i := 0; i < max(1, len(p.Names)); i++ {
+				want = append(want, "p "+types.ExprString(p.Type))
+			}
+		}
+		if fd.Type.Results != nil {
+			for _, r := range fd.Type.Results.List {
+				for i := 0; i < max(1, len(r.Names)); i++ {
+					want = append(want, "r "+types.ExprString(r.Type))
+				}
+			}
+		}
+		qual := types.RelativeTo(e.pkg.Types)
+		var cands []*ssa.Function
+		for k, f := range e.fns {
+			if e.headerKeys[k] || f.Synthetic != "" || f.Parent() != nil {
+				continue
+			}
+			var have []string
+			sig := f.Signature
+			if sig.Recv() != nil {
+				have = append(have, "recv "+types.TypeString(sig.Recv().Type(), qual))
+			}
+			for i := 0; i < sig.Params().Len(); i++ {
+				have = append(have, "p "+types.TypeString(sig.Params().At(i).Type(), qual))
+			}
+			for i := 0; i < sig.Results().Len(); i++ {
+				have = append(have, "r "+types.TypeString(sig.Results().At(i).Type(), qual))
+			}
+			if strings.Join(have, ";") == strings.Join(want, ";") {
+				cands = append(cands, f)
+			}
+		}
+		if len(cands) != 1 {
+			return fmt.Errorf("contract for unknown function %s", key)
+		}
+		fn = cands[0]
+		e.renameNotes = append(e.renameNotes, fmt.Sprintf("contract of %s applied to %s (the only function without a contract that has the same signature)", key, fnKey(fn)))
+		key = fnKey(fn)
+		ct.Key = key
 	}
 	ct.Fn = fn
 	if len(ct.ParamNames) != len(fn.Params) {
